@@ -6,6 +6,8 @@ from sgcheck import facts as fm, selftest
 os.makedirs("/var/tmp/negfacts", exist_ok=True)
 for d in sorted(glob.glob("/verif/refactors/R*")):
     name = os.path.basename(d)
+    if len(sys.argv) > 1 and name not in sys.argv[1:]:
+        continue
     dst = "/var/tmp/negfacts/" + name
     if os.path.exists(os.path.join(dst, "DONE")):
         continue
